@@ -39,11 +39,25 @@ Definition step_close (a b : series * trace) : bool :=
 
 Inductive case :=
   | CRun (f : cfc) (y : series) (fh : list Z) (ups : list (series * bool))
-         (out : list (series * trace)).
+         (out : list (series * trace))
+  (* the horizon is (also) handed over at predict: fhs = the horizon in force at each step
+     (fit+predict, then each update+predict).  The model's horizon is an argument of the whole run,
+     so step i is step i of the run with the horizon in force at step i. *)
+  | CRunH (f : cfc) (y : series) (ups : list (series * bool)) (fhs : list (list Z))
+          (out : list (series * trace)).
+
+Definition c_run_h (f : cfc) (y : series) (ups : list (series * bool)) (fhs : list (list Z))
+  : list (option (series * trace)) :=
+  map (fun p => nth_error (c_run f y (snd p) ups) (fst p)) (combine (seq 0 (length fhs)) fhs).
 
 Definition check (c : case) : bool :=
   match c with
   | CRun f y fh ups out => list_close step_close (c_run f y fh ups) out
+  | CRunH f y ups fhs out =>
+      (length fhs =? S (length ups))%nat &&
+      (length out =? length fhs)%nat &&
+      forallb (fun p => match fst p with Some st => step_close st (snd p) | None => false end)
+              (List.combine (c_run_h f y ups fhs) out)
   end.
 
 Fixpoint mism (cs : list (Z * case)) : list Z :=
